@@ -128,13 +128,19 @@ def run(ctx):
         if t[0].get("kind") == "ksput":     # locator signed by keepstore's PUT: an unperturbed case
             s = {"wf": True, "same": True, "present": True, "ploc": "none(put-signed)", "pver": "none"}
         for e in t[1:]:
-            if e["ev"] == "verify":
+            if e["ev"] in ("verify", "verifyks"):
                 want = predicted(s["wf"], s["same"], e["rel"])
                 if e["via"] == "keepstore":
                     want = {w if w in ("ok", "expired") else "denied" for w in want}
                 if e["res"] not in want:
                     drift("BlobSig.tla predicts %s for %s/%s rel=%s via %s, code gave %s (loc %s)"
                           % (sorted(want), s["ploc"], s["pver"], e["rel"], e["via"], e["res"], t[0].get("loc")))
+            elif e["ev"] == "signloc" and not e.get("prefixok", True):
+                drift("SignLocator did not append the signature directly after the given locator: %s" % e.get("out"))
+            elif e["ev"] == "putloc" and not (e.get("prefixok") and e.get("expok")):
+                drift("keepstore PUT returned %s (model: hash+size+A<sig>@<request time + TTL>)" % t[0].get("loc"))
+            elif e["ev"] == "skip" and "signed" in e:
+                drift("keepstore PUT returned an unsigned locator %s" % t[0].get("loc"))
             elif e["ev"] == "ksget":
                 want = set()
                 for w in predicted(s["wf"], s["same"], e["rel"]):
@@ -152,7 +158,7 @@ def run(ctx):
     counts = {}
     for t in tr1 + tr2:
         for e in t[1:]:
-            if e["ev"] == "verify":
+            if e["ev"] in ("verify", "verifyks"):
                 k = "verify:%s:%s:%s" % (e["via"], e["rel"], e["res"])
             elif e["ev"] == "ksget":
                 k = "ksget:%s:%s" % (e["rel"], e["status"])
@@ -193,6 +199,8 @@ def run(ctx):
                         "manifest tokenizer (whitespace runs / tokens / '+'-separated hints)"]
     ctx.assumptions = ["equality with the Rails implementation is checked against the reference written from blob.rb, "
                        "not by executing Ruby",
+                       "a perturbed locator that is also expired may be reported with any failing class; keepstore's "
+                       "wrapper and the locator returned by PUT are judged on accept/refuse and on the signature only",
                        "within the expiry second both 'ok' and 'expired' are accepted (statement says 'before'; "
                        "Go and Rails differ there)",
                        "the statement does not say which failures are 'missing' and which 'invalid': both accepted",
